@@ -4,4 +4,12 @@ go 1.24.0
 
 require github.com/DDP-Projekt/Kompilierer v0.0.0
 
+require (
+	github.com/llir/irutil v0.0.0-20230226050352-c20f75c375f9 // indirect
+	github.com/llir/llvm v0.3.6 // indirect
+	github.com/mewmew/float v0.0.0-20211212214546-4fe539893335 // indirect
+	github.com/pkg/errors v0.9.1 // indirect
+	golang.org/x/exp v0.0.0-20240613232115-7f521ea00fb8 // indirect
+)
+
 replace github.com/DDP-Projekt/Kompilierer => /repo
